@@ -599,6 +599,8 @@ class RunningShow:
     def resume(self):
         """Resume paused show."""
         self.machine.show_controller.debug_log("Resuming show %s", self.show.name)
+        # a show which is not paused still has a step scheduled. do not start a second timer chain
+        self._remove_delay_handler()
         self.next_step_time = self.machine.clock.get_time()
         self._run_next_step(post_events=self.show_config.events_when_resumed)
 
